@@ -91,6 +91,8 @@ type nfsWorld struct {
 	known41   bool
 	freeHeld  bool
 
+	strays                   []*strayRecord
+	strayExpired, straysSent int
 	// pastIDs remembers the client ids of incarnations whose lease expired.
 	pastIDs map[uint64]*nfsClient
 	// expiredRanges are the locks clients held when their lease expired.
@@ -101,6 +103,15 @@ type nfsWorld struct {
 	compounds, granted, denied, locktConflicts, locktClear int
 	unlocks, closes, sweeps, setupFailed, known41Hits      int
 	version                                                [2]int // granted locks per minor version
+}
+
+// strayRecord is an unconfirmed registration (SETCLIENTID never followed by
+// SETCLIENTID_CONFIRM, EXCHANGE_ID never followed by CREATE_SESSION) that
+// carries the id string of client c.
+type strayRecord struct {
+	c       *nfsClient
+	at      time.Time
+	counted bool
 }
 
 type expiredRange struct {
@@ -119,6 +130,26 @@ func (w *nfsWorld) now() time.Time { return w.clock.Global() }
 // (the world never has a request of the client itself in flight at that
 // moment). From then on the locks of such a client are gone for certain.
 func (w *nfsWorld) enterProgram(minor uint32, by *nfsClient) {
+	// Unconfirmed records of this program that are older than the lease
+	// time disappear now; by RFC 7530 section 16.33.5 (and RFC 8881 section
+	// 18.35.5) such a record never touches the state of the confirmed
+	// client, so the model does nothing. Only count the interesting case.
+	for _, sr := range w.strays {
+		if sr.c.minor == minor && !sr.counted && w.now().Sub(sr.at) > leaseTime {
+			sr.counted = true
+			c := sr.c
+			if c.mRegistered && !c.mGone && !c.zombie() {
+				w.k.Probe("stray_unconfirmed_record_expired_while_client_alive")
+				for _, lo := range c.los {
+					if c.holdsAnywhere(lo) {
+						w.strayExpired++
+						w.k.Probe("stray_unconfirmed_record_expired_while_client_held_locks")
+						break
+					}
+				}
+			}
+		}
+	}
 	for _, c := range w.allClients() {
 		if c.minor != minor || !c.zombie() {
 			continue
@@ -1029,6 +1060,47 @@ func (c *nfsClient) spoiledRequest(lo *lockOwner, f int, unlock bool, kind int, 
 	return true
 }
 
+// stray sends a registration request that carries the id string of c but is
+// never confirmed: with a verifier c never used (an aborted boot, a delayed
+// duplicate of another boot), or with c's current verifier and another
+// callback. Neither may have any effect on the confirmed client: not now,
+// and not when the unconfirmed record is garbage collected a lease time
+// later. So the model does not change (not even the lease of c is renewed).
+func (c *nfsClient) stray(sameVerifier bool) {
+	w := c.w
+	var verifier [8]byte
+	if sameVerifier && c.registered {
+		binary.BigEndian.PutUint64(verifier[:], c.verifier)
+	} else {
+		sameVerifier = false
+		w.straysSent++
+		binary.BigEndian.PutUint64(verifier[:], 1<<63|uint64(w.straysSent))
+	}
+	var st nfsv4.Nfsstat4
+	if c.minor == 0 {
+		w.k.Note(fmt.Sprintf("stray SETCLIENTID with the id of %s (same verifier: %v), never confirmed", c.name, sameVerifier))
+		_, st = c.rawCall(&nfsv4.NfsArgop4_OP_SETCLIENTID{Opsetclientid: nfsv4.Setclientid4args{
+			Client:        nfsv4.NfsClientId4{Verifier: verifier, Id: c.longID},
+			Callback:      nfsv4.CbClient4{CbProgram: 99, CbLocation: nfsv4.Netaddr4{NaRNetid: "tcp", NaRAddr: "10.0.0.9.3.9"}},
+			CallbackIdent: 7,
+		}})
+	} else {
+		w.k.Note(fmt.Sprintf("stray EXCHANGE_ID with the id of %s (same verifier: %v), no CREATE_SESSION", c.name, sameVerifier))
+		_, st = c.rawCall(&nfsv4.NfsArgop4_OP_EXCHANGE_ID{OpexchangeId: nfsv4.ExchangeId4args{
+			EiaClientowner:  nfsv4.ClientOwner4{CoVerifier: verifier, CoOwnerid: c.longID},
+			EiaStateProtect: &nfsv4.StateProtect4A_SP4_NONE{},
+		}})
+	}
+	if st != nfsv4.NFS4_OK {
+		c.setupFailed("stray registration", st)
+		return
+	}
+	w.k.FaultsFired["stray-unconfirmed-registration"]++
+	if !sameVerifier {
+		w.strays = append(w.strays, &strayRecord{c: c, at: w.now()})
+	}
+}
+
 func (c *nfsClient) goSilent(length int, why string) {
 	w := c.w
 	c.silent = true
@@ -1155,6 +1227,7 @@ const (
 	opRelease
 	opPing
 	opReboot
+	opStray
 )
 
 var lockTypes = []nfsv4.NfsLockType4{nfsv4.WRITE_LT, nfsv4.READ_LT, nfsv4.WRITE_LT, nfsv4.READ_LT, nfsv4.WRITEW_LT, nfsv4.READW_LT}
@@ -1164,7 +1237,7 @@ func (c *nfsClient) draw() choices {
 	t := w.t
 	var ch choices
 	ch.idle = t.Bool(1, 2) // lazy clients and the observer skip half of their turns
-	ch.kind = t.Weighted([]int{10, 5, 5, 2, 2, 1, 1})
+	ch.kind = t.Weighted([]int{10, 5, 5, 2, 2, 1, 1, 2})
 	ch.f = t.Choice(len(w.files))
 	ch.lo = t.Choice(max(1, len(c.los)))
 	ch.oo = t.Choice(max(1, len(c.oos)))
@@ -1201,6 +1274,10 @@ func (ch *choices) encode() (uint64, uint64) {
 func (c *nfsClient) turn(ch choices) {
 	w := c.w
 	if !c.registered {
+		if ch.forceO2L {
+			// An aborted registration attempt precedes the real one.
+			c.stray(false)
+		}
 		if !c.register() {
 			return
 		}
@@ -1275,6 +1352,10 @@ func (c *nfsClient) turn(ch choices) {
 		w.k.Note(c.name + " reboots")
 		w.k.FaultsFired["client-reboot"]++
 		c.register()
+	case opStray:
+		c.stray(ch.allOnes)
+		// The client itself carries on (and so keeps its lease alive).
+		c.lockt(lo, lo.name, ch.f, off, length, ch.lt)
 	}
 	if ch.silence == 1 && !w.failed && !c.observer {
 		c.goSilent(ch.silentLen, "")
@@ -1589,6 +1670,8 @@ func runNFS(base *world) {
 	r.Count("nfs_closes", w.closes)
 	r.Count("nfs_sweeps", w.sweeps)
 	r.Count("nfs_setup_failed", w.setupFailed)
+	r.Count("nfs_stray_unconfirmed_registrations", w.straysSent)
+	r.Count("nfs_stray_records_expired_while_client_held_locks", w.strayExpired)
 	r.Count("nfs_spoiled_requests", w.spoiled)
 	r.Count("nfs_failed_noncompleting_lockowner_requests", w.nonCompleting)
 	r.Count("nfs_clients_expired_holding_locks", w.expiredHolding)
